@@ -148,12 +148,25 @@ def register(prop):
          "non-trivial = >=1 foreign variant ignored / >20 cross deliveries; distinct = distinct (label pair, skip, config) tuples / schedule fingerprints",
          extra={"label_lengths_enumerated": "1..255 complete"})
 
+    prop("C11", [dict(scn="C11", quick=600, thorough=60000, wall_quick=120, wall_thorough=2400)],
+         "bench mode: real sender and real receiver; swarm over UDPBufferSize {512,1400,4096,16384,65507}, label length {0,1,7,64,255}, encryption off/16/24/32 with v0/v1, compression, "
+         "GossipVerifyOutgoing on/off; the sender's queue is loaded per round with 3-700 generated alive broadcasts (many tiny / mixed / near-maximal names+meta) and its delegate with "
+         "0-300 user broadcasts of 1-1300 bytes; sends are triggered through every assembly path: gossip tick, probe ping, ack to a ping, indirect ping + nack, relayed ack; oracles: "
+         "every buffer the sender hands to the transport is <= UDPBufferSize (label header included); every membership broadcast the queue handed out for a trigger (read off the "
+         "per-item transmit counters in-package) is seen by the receiver's handlers - counts beyond 255 included; the multiset of user payloads the sender's delegate handed out equals "
+         "what the receiver's delegate got; non-trivial = >=1 packet assembled; distinct = distinct (configuration, queue profile) tuples",
+         assumptions=["the receiver's HandoffQueueDepth is raised so that its own (legitimate) overflow drop does not mask sender-side loss"])
+
 NOT_CLAIMED = {}
 
 SIM_NOTE = ("trusted base: Go runtime + testing/synctest fake clock, the harness (scheduler, SimNet, oracles) under /verif/sim; "
             "assumes the guarded yield sites are the relevant preemption points; seeded search, not proof")
 
 META = {
+ "C11": dict(
+    level_text="Every packet a real sender assembles from queued broadcasts through each assembly path is measured at the simulated transport against UDPBufferSize and compared, message for message, with what the queue and the delegate handed out and what a real receiver's handlers and delegate saw, over seeded configurations and queue contents incl. >255 piggybacked parts.",
+    design_ref="DESIGN.md §3 C11", level_note=SIM_NOTE,
+    technique="deterministic simulation (bench mode): seeded queue contents x configurations, wire-size and hand-out/receive conservation oracles at the simulated transport"),
  "C16": dict(
     level_text="Complete enumeration of label lengths and short-header fragmentations for the codec, differential injection of captured genuine traffic across label pairs into a quiescent real node, and seeded mixed-label cluster runs with cross-delivery of every packet and a per-step isolation invariant.",
     design_ref="DESIGN.md §3 C16", level_note=SIM_NOTE,
